@@ -37,9 +37,9 @@ def lang_product(tier):
         C.log(stats.get("tail", ""))
         raise C.ToolError("TLC did not complete on LangCheck_C01")
     recs = C.tlc_records(out)
-    with open(cpath + ".tmp", "w") as f:
+    with open(cpath + C.TMP, "w") as f:
         json.dump({"recs": recs, "stats": stats}, f)
-    os.replace(cpath + ".tmp", cpath)
+    os.replace(cpath + C.TMP, cpath)
     return cases, obs_path, recs, stats
 
 
@@ -123,8 +123,10 @@ def query_check(prop, tier):
     inv, relevant, meaning = QUERY[prop]
     # the verdict-style contracts (only patterns reporting `always` enter the product) also take the nested contexts
     nest = "exhaustive" if prop == "C09" else (prop == "C12")
-    cases = L.all_cases(tier, with_nest=nest)
-    obs_path = L.observe(cases, "dfa", ("alle-" if nest == "exhaustive" else "alln-" if nest else "all-") + tier)
+    # C11: flag placement matters for what counts as invariant text (a literal without case under (?i))
+    extra = [("flags", 6 if tier == "quick" else 7)] if prop == "C11" else []
+    cases = L.all_cases(tier, with_nest=nest, extra=extra)
+    obs_path = L.observe(cases, "dfa", ("alle-" if nest == "exhaustive" else "alln-" if nest else "allf-" if extra else "all-") + tier)
     obs = L.read_ndjson(obs_path)
     by_id = {o["id"]: o for o in obs}
     out, stats = C.tlc("QueryCheck.tla", "QueryCheck_%s.cfg" % prop, env={"OBS": obs_path, "PROP": prop}, timeout=3000,
@@ -367,8 +369,8 @@ def check_C05(tier):
         cpath = path + ".cases"
         L.write_ndjson(cpath, cases)
         t1 = time.time()
-        C.run_wv(["total", "--threads", str(max(2, C.WORKERS)), "--timeout", "60"], stdin_path=cpath, stdout_path=path + ".tmp", timeout=7000)
-        os.replace(path + ".tmp", path)
+        C.run_wv(["total", "--threads", str(max(2, C.WORKERS)), "--timeout", "60"], stdin_path=cpath, stdout_path=path + C.TMP, timeout=7000)
+        os.replace(path + C.TMP, path)
         os.remove(cpath)
         C.log("[total] %d inputs, every public operation, in child processes (%.1fs)" % (len(cases), time.time() - t1))
     obs = L.read_ndjson(path)
@@ -447,6 +449,20 @@ def check_C07(tier):
             if tuple(m) not in any_ident:
                 any_ident[tuple(m)] = len(allc) + 1
                 allc.append({"id": len(allc) + 1, "kind": "glob", "fam": "anymember", "e": list(m), "sigma": L.ANY_SIGMA})
+    # any of ONE pattern against that pattern, for family members with a branch (in a combinator every token of the
+    # member is nested one level deeper: groups that capture at the top level do not, positions change): a seeded
+    # sample of the base families and of the deep members of cls2 (escaped parentheses and brackets in branches)
+    rnd1 = random.Random(C.SEED + 11)
+    pool1 = [c for c in base if (123 in c["e"] or 60 in c["e"])]
+    pool1 += [c for c in L.family_cases(tier, [("cls2", 3), ("cls2", 9, 800 if tier == "quick" else 8000)]) if 123 in c["e"] or 60 in c["e"]]
+    rnd1.shuffle(pool1)
+    singles = []
+    for c in pool1[: (12000 if tier == "quick" else 120000)]:
+        gid = len(allc) + 1
+        allc.append({"id": gid, "kind": "glob", "fam": c["fam"], "e": c["e"], "sigma": L.SIGMA[c["fam"]]})
+        aid = len(allc) + 1
+        allc.append({"id": aid, "kind": "any", "mode": "text", "fam": "any1", "members": [c["e"]], "sigma": L.SIGMA[c["fam"]]})
+        singles.append((aid, gid))
     obs_path = L.observe(allc, "dfa", "rel-" + tier)
     obs = L.read_ndjson(obs_path)
     by_id = {o["id"]: o for o in obs}
@@ -469,6 +485,9 @@ def check_C07(tier):
         ms = [any_ident[tuple(m)] for m in a["members"]]
         if usable(a["id"]) and all(usable(m) for m in ms):
             recs.append({"law": "any-" + a["mode"], "mode": "eq", "zt": False, "tr": False, "orig": a["id"], "members": ms})
+    for aid, gid in singles:
+        if usable(aid) and usable(gid):
+            recs.append({"law": "any-one", "mode": "eq", "zt": False, "tr": False, "orig": aid, "members": [gid]})
     # relations are independent: they are checked in shards, each with the observations it refers to (renumbered,
     # UnionCheck indexes observations by position)
     d = os.path.dirname(obs_path)
@@ -1207,6 +1226,20 @@ def check_C03(tier):
                         h["glob"] = C.cps(under)
                     h["_neg"] = tuple(neg)
                     scenarios.append(h)
+    # negations that match symbolic links (read as files and followed): discarding a link that is read as a file
+    # skips nothing else
+    nodes, index = W.tree(W.TREES["links"])
+    for neg in (["**/tob/**"], ["**/up/**"], ["a/tob/**", "**/lf"], ["**/tob"], ["{**/tob/**,**/toa_f}"]):
+        for follow in (False, True):
+            for under in (None, "**"):
+                h = {"sid": len(scenarios) + 1, "nodes": nodes, "follow": follow, "min": -1, "max": -1, "rooted": False,
+                     "walk_from": index["root"], "base": "abs", "tree": "links", "origin": "library",
+                     "layers": [{"kind": "not", "patterns": [C.cps(p) for p in neg], "mode": "text"}],
+                     "desc": "%s over tree links (links read as %s) .not(%s)" % ("path walk" if under is None else "glob %r" % under, "targets" if follow else "files", neg)}
+                if under is not None:
+                    h["glob"] = C.cps(under)
+                h["_neg"] = tuple(neg)
+                scenarios.append(h)
     # two stacked negations and a negation next to an entry filter
     nodes, index = W.tree(W.TREES["deep"])
     for a, b in (("**/c/**", "**/g"), ("a/**", "**/h"), ("**/b/**", "**/b/**")):
@@ -1242,6 +1275,9 @@ def check_C03(tier):
         r = results[h["sid"]]
         got = sorted(os.path.normpath(C.text(b["item"]["facts"]["path"]["p"])) for b in r["blocks"] if b["item"]["k"] == "entry")
         paths = W.node_paths(dict(h, walk_from=h["walk_from"]))
+        if h["tree"] == "links":
+            # positions that are error items (dangling and re-entrant links read as targets) are not entries
+            paths = {t: info["pos"] for t, info in reachable(h).items() if not info["kind"].startswith("err")}
         under = set()
         for t in paths:
             rel = W.rel_to(t, h["_base_text"])
@@ -1347,7 +1383,7 @@ def check_C14(tier):
                           "base": "abs", "layers": [], "tree": "links", "origin": "library", "desc": "glob %r over tree links (follow=%s)" % (g, follow)})
     # file names that are not valid UTF-8: the relative segment is a path, not a text
     nodes, index = W.tree(W.TREES["bytes"])
-    for g in ("**", "**/*.txt", "a/**", "*/*", "a/*/g.txt"):
+    for g in ("**", "**/*.txt", "a/**", "*/*", "a/*/g.txt", "a/b*.txt", "a/{b,m}.txt", "**/*b.txt", "a/m$.txt"):
         for base in ("abs", "trailing"):
             extra.append({"nodes": nodes, "follow": False, "min": -1, "max": -1, "glob": C.cps(g), "rooted": False, "walk_from": index["root"],
                           "base": base, "layers": [], "tree": "bytes", "origin": "library", "desc": "glob %r over tree bytes (names that are not UTF-8; %s)" % (g, base)})
